@@ -84,7 +84,7 @@ INFO = {
     "files": ["mappyfile/parser.py", "mappyfile/transformer.py", "mappyfile/mapfile.lark"],
     "functions": ["mappyfile.parser.Parser.parse (loop)", "lark LALR table", "mappyfile.parser.Parser.load_includes", "mappyfile.parser.Parser._get_include_filename",
                   "mappyfile.transformer.MapfileTransformer.attr/check_composite_tokens/process_pair_lists/projection/config/composite", "lark.visitors.Transformer._call_userfunc (wraps into VisitError; trusted)"],
-    "bounds": {"loop": "all sequences of 5 terminals (88^5), 40 micro-steps", "roots": "19 x 19 block types", "include_tail": "0..3 (quick) / 0..4 (thorough) characters over { space tab \" ' # a o . k / }",
+    "bounds": {"loop": "all sequences of 4 (quick) / 5 (thorough) terminals over the 88 terminals, 32 / 40 micro-steps", "roots": "19 x 19 block types", "include_tail": "0..3 (quick) / 0..4 (thorough) characters over { space tab \" ' # a o . k / }",
                "wrap": "13 odd-but-grammatical skeletons, 2 symbolic code points"},
     "outside": ["TIME roughly proportional to input length: not a solver observable (no cost semantics for `re` / the LALR driver in the model); NOT decided",
                 "arbitrary long token soups and nesting beyond the skeletons; scanner errors (UnexpectedCharacters) are raised by lark itself (trusted)",
@@ -96,7 +96,7 @@ INFO = {
 
 def obligations(tier, seed):
     obs = []
-    obs.append(Ob(name="C11-LOOP/stack", kind="z3", z3_call=("engine.lalr", "loop_query", {"n": 5 if tier == "quick" else 6, "steps": 40 if tier == "quick" else 50}), timeout=1800,
+    obs.append(Ob(name="C11-LOOP/stack", kind="z3", z3_call=("engine.lalr", "loop_query", {"n": 4 if tier == "quick" else 5, "steps": 32 if tier == "quick" else 40}), timeout=1800,
                   meta={"desc": "value stack non-empty whenever a token after the first is inspected; first-token guard present", "functions": ["Parser.parse", "LALR table"]}))
     obs.append(Ob(name="C11-ROOT/blocks", kind="z3", z3_call=("engine.lalr", "root_query", {}), timeout=900,
                   meta={"desc": "every pair of block types accepted as roots", "functions": ["LALR table"]}))
